@@ -1454,6 +1454,21 @@ def seq_method(engine, st, method, args, dest_ty):
             out.insert(pos, x)
         s.items[:] = out
         return UnitV()
+    if method in ('sort', 'sort_unstable') and isinstance(s, VecV) and s.items and all(isinstance(deref_all(x), Agg) and deref_all(x).kind == 'tuple' for x in s.items):
+        # tuples of strings (known by their text) and concrete integers: lexicographic order
+        def k(x):
+            out = []
+            for f in deref_all(x).fields:
+                f = deref_all(f)
+                if isinstance(f, Opaque):
+                    out.append((0, f.name))
+                elif isinstance(f, IV) and f.concrete() is not None:
+                    out.append((1, f.concrete()))
+                else:
+                    raise Inconclusive('sort of tuples with symbolic components')
+            return out
+        s.items.sort(key=k)
+        return UnitV()
     if method in ('sort', 'sort_unstable') and isinstance(s, VecV) and not s.items:
         return UnitV()
     if method in ('sort', 'sort_unstable') and isinstance(s, VecV) and all(isinstance(deref_all(x), Opaque) for x in s.items):
